@@ -142,6 +142,17 @@ CLAIMED = {
              'stated not mechanised.',
         technique='contract-based deductive verification (pyvc + z3); assumed dependency contract with executed witnesses',
         design_ref='DESIGN.md 7 C16'),
+    'C09': dict(
+        text='Deductive verification of HTTPException.__init__ (status is the given or class code), adapt (format '
+             'table, Content-Type agrees with the negotiated type, plain text otherwise), to_escaped_dict / to_html / '
+             'to_xml as a taint-style obligation over the formatted string term: every substituted value carries the '
+             'ghost predicate ESCAPED, which only html.escape establishes (a removed escape call fails it); the status '
+             'table, JSON keys, XML well-formedness and Content-Type agreement of all 31 exported classes are checked by '
+             'evaluation on the imported module.',
+        note='A-esc (html.escape), json encoder, Werkzeug Accept negotiation assumed; the contextual debug pages rely '
+             'on ashes auto-escaping (assumed, A-ashes); control characters in XML are outside the claim.',
+        technique='contract-based deductive verification (pyvc + z3), taint predicate over string terms; table by evaluation',
+        design_ref='DESIGN.md 7 C09'),
 }
 
 REASONS = {}
